@@ -222,7 +222,8 @@ def _job(job):
         if impl[0] == 'U' and spec[0] == 'U':
             out['stuck'] += 1
             continue
-        if impl[0] != 'U' and real != impl and not job.get('memo_sensitive') and not (real[0] == 'X' and not res['ws']):
+        if (impl[0] != 'U' and real != impl and not job.get('memo_sensitive') and not (real[0] == 'X' and not res['ws'])
+                and not (not res['ws'] and has_function_values(P))):     # shadowing + lambdas: late binding, not the tie
             out['broken'].append({'key': f'{job["id"]}|{t}', 'grammar': res['text'], 'input': t,
                                   'what': f'flat-locals model and implementation differ on {t!r}: real {real} model {impl}'})
         if spec[0] != 'U' and real != spec:
@@ -257,6 +258,35 @@ def _job(job):
     return out
 
 
+def lambda_binders(e, out):
+    """binders of the function operands of `<|` (a Python lambda captures the variable: their names must stay unique)"""
+    k = e[0]
+    if k in ('seq', 'choice'):
+        for x in e[1]:
+            lambda_binders(x, out)
+    elif k in ('star', 'opt', 'where', 'apply', 'rep'):
+        lambda_binders(e[1], out)
+    elif k == 'let':
+        if e[1].startswith('fn') and e[1].endswith('k'):
+            out.append(e[1])
+        lambda_binders(e[2], out)
+        lambda_binders(e[3], out)
+    elif k == 'applyl':
+        lambda_binders(e[1], out)
+        lambda_binders(e[2], out)
+    elif k == 'call':
+        for _, a in e[2]:
+            lambda_binders(a, out)
+    elif k == 'bseq':
+        for _, x in e[3]:
+            lambda_binders(x, out)
+    return out
+
+
+def has_function_values(P):
+    return 'applyl' in repr(P)
+
+
 def expand_program(P):
     rules = []
     changed = False
@@ -268,6 +298,10 @@ def expand_program(P):
         rules.append((name, b))
     if not changed:
         return None
+    for _, b in rules:
+        names = lambda_binders(b, [])
+        if len(names) != len(set(names)):
+            return None     # inlining a template twice duplicated the binder of a lambda: see DESIGN.md (late binding)
     # class templates stay (they cannot be inlined); the others are not referenced any more
     temps = []
     for name, params, body in P['templates']:
@@ -278,7 +312,7 @@ def expand_program(P):
             temps.append((name, params, b))
         else:
             temps.append((name, params, body))
-    return {'rules': rules, 'templates': temps, 'named': P.get('named')}
+    return {'rules': rules, 'templates': temps, 'named': P.get('named'), 'ignore': P.get('ignore')}
 
 
 def run_jobs(jobs):
